@@ -1,0 +1,65 @@
+//! Verification hook (compiled only with `--cfg yift_jawk_verif`): puts the hasher seed of
+//! the `--unique` set behind a seam so that a simulated run is exactly repeatable.
+//! When no seed is set the behaviour is the shipped one (std's `RandomState`).
+#![allow(deprecated)]
+
+use std::cell::Cell;
+use std::collections::hash_map::{DefaultHasher, RandomState};
+use std::hash::{BuildHasher, Hasher, SipHasher};
+
+thread_local! {
+    static HASH_SEED: Cell<Option<u64>> = const { Cell::new(None) };
+}
+
+/// Set (or clear) the hasher seed used by sets created afterwards on this thread.
+pub fn set_hash_seed(seed: Option<u64>) {
+    HASH_SEED.with(|s| s.set(seed));
+}
+
+#[derive(Clone)]
+pub enum SeededState {
+    Random(RandomState),
+    Seeded(u64),
+}
+
+impl Default for SeededState {
+    fn default() -> Self {
+        match HASH_SEED.with(Cell::get) {
+            Some(seed) => SeededState::Seeded(seed),
+            None => SeededState::Random(RandomState::new()),
+        }
+    }
+}
+
+pub enum SeededHasher {
+    Random(DefaultHasher),
+    Seeded(SipHasher),
+}
+
+impl BuildHasher for SeededState {
+    type Hasher = SeededHasher;
+    fn build_hasher(&self) -> SeededHasher {
+        match self {
+            SeededState::Random(r) => SeededHasher::Random(r.build_hasher()),
+            SeededState::Seeded(seed) => SeededHasher::Seeded(SipHasher::new_with_keys(
+                *seed,
+                seed.rotate_left(32) ^ 0x9E37_79B9_7F4A_7C15,
+            )),
+        }
+    }
+}
+
+impl Hasher for SeededHasher {
+    fn finish(&self) -> u64 {
+        match self {
+            SeededHasher::Random(h) => h.finish(),
+            SeededHasher::Seeded(h) => h.finish(),
+        }
+    }
+    fn write(&mut self, bytes: &[u8]) {
+        match self {
+            SeededHasher::Random(h) => h.write(bytes),
+            SeededHasher::Seeded(h) => h.write(bytes),
+        }
+    }
+}
